@@ -92,7 +92,9 @@ def parseStep (s : String) (K : Nat) : Option SStep :=
   | ["C"] => some .unloadCur
   | ["N", "G"] => some (.newReq true)
   | ["N", "P"] => some (.newReq false)
+  | ["N", "W"] => some .newReqWs
   | ["O", r, "sb"] => (num r).map .streamBegin
+  | ["O", r, "wu"] => (num r).map .wsBegin
   | ["O", r, "se"] => (num r).map .streamEnd
   | ["O", r, what] => if outcomeNames.contains what then (num r).map (.answer · what) else none
   | ["A", r] => (num r).map .abort
